@@ -135,6 +135,100 @@ def inline_one(caller, bi, callee):
         head["stmts"].append({"k": "assign", "place": {"l": lm(1 + i), "p": []}, "rv": {"k": "use", "a": [copy.deepcopy(a)]}, "sp": T.get("sp"), "expn": None, "inlined_arg": callee["path"]})
     head["term"] = {"k": "goto", "t": bm(0)}
     head["inlined_call"] = callee["path"]
+    thread_returns(caller, lm(0), T["dest"], cont, boff, callee["path"])
+
+
+# ------------------------------------------------------------------------------------------------
+# jump threading over an inlined helper's return value
+
+
+def thread_returns(caller, ret_local, dest, cont, first_new, path):
+    """After inlining, every `return` of the helper funnels through one block that copies the helper's `_0` into the
+    call's destination and jumps to the continuation, where the caller typically branches on it at once
+    (`if let Err(e) = helper(..)`, `match helper(..)`, `if helper(..)`).  Path-insensitive rules would see every arm of
+    that branch after every return.  Where the helper assigns a *known* variant / bool to its `_0` and reaches its return
+    through straight-line blocks, that path is given its own copy of the tail and jumps straight to the arm that
+    variant selects."""
+    blocks = caller["blocks"]
+    if cont is None:
+        return 0
+    cb = blocks[cont]
+    # what does the continuation branch on?
+    t = cb["term"]
+    if t["k"] != "switch":
+        return 0
+    dpl = t["d"].get("move") or t["d"].get("copy")
+    if dpl is None or dpl["p"]:
+        return 0
+    mode = None
+    if dpl["l"] == dest["l"] and not dest["p"] and not [x for x in cb["stmts"] if x["k"] == "assign"]:
+        mode = "bool"
+    else:
+        as_ = [x for x in cb["stmts"] if x["k"] == "assign"]
+        if len(as_) == 1 and as_[0]["rv"]["k"] == "discr" and as_[0]["place"]["l"] == dpl["l"] and as_[0]["rv"]["place"]["l"] == dest["l"] and not as_[0]["rv"]["place"]["p"] and not dest["p"]:
+            mode = "discr"
+    if mode is None:
+        return 0
+
+    def arm_for(v):
+        for a in t["arms"]:
+            if a[0] == v:
+                return a[1]
+        return t["otherwise"]
+
+    n = 0
+    nb0 = len(blocks)
+    for bi in range(first_new, nb0):
+        blk = blocks[bi]
+        if blk.get("cleanup") or blk.get("inl") != path:
+            continue
+        # last assignment to the helper's return local in this block
+        val = None
+        for st in blk["stmts"]:
+            if st["k"] == "assign" and st["place"]["l"] == ret_local and not st["place"]["p"]:
+                rv = st["rv"]
+                val = None
+                if mode == "discr" and rv["k"] == "agg" and rv.get("ak") == "adt" and rv.get("is_enum") and rv.get("vi") is not None:
+                    val = rv["vi"]
+                elif mode == "bool" and rv["k"] == "use" and isinstance(rv["a"][0].get("const", {}).get("v"), (int, bool)):
+                    val = int(rv["a"][0]["const"]["v"])
+        if val is None:
+            continue
+        # follow straight-line successors up to the inlined return block (the one that assigns `dest` and goes to cont)
+        chain = []
+        cur = blk["term"]
+        ok = False
+        seen = 0
+        while seen < 12:
+            seen += 1
+            if cur["k"] in ("goto", "drop") and isinstance(cur.get("t"), int):
+                nxt = cur["t"]
+            else:
+                break
+            nblk = blocks[nxt]
+            if nblk.get("inl") != path or any(st["k"] == "assign" and st["place"]["l"] == ret_local for st in nblk["stmts"]):
+                break
+            chain.append(nxt)
+            if nblk["term"]["k"] == "goto" and nblk["term"].get("t") == cont and any(st.get("inlined_ret") for st in nblk["stmts"]):
+                ok = True
+                break
+            cur = nblk["term"]
+        if not ok:
+            continue
+        # clone the chain, last clone jumps to the selected arm (the continuation's own statements are re-done there)
+        prev = bi
+        for idx, cbi in enumerate(chain):
+            cl = copy.deepcopy(blocks[cbi])
+            blocks.append(cl)
+            new_i = len(blocks) - 1
+            pt = blocks[prev]["term"]
+            pt["t"] = new_i
+            prev = new_i
+        last = blocks[prev]
+        last["stmts"] += copy.deepcopy(cb["stmts"])
+        last["term"] = {"k": "goto", "t": arm_for(val)}
+        n += 1
+    return n
 
 
 def transform(raw):
@@ -534,6 +628,6 @@ def _apply_renames(raw, ren):
                 f["path"] = fix(f["path"])
 
 
-def write_known(raw, path=KNOWN):
+def write_known(raw, path=KNOWN, index=None):
     with open(path, "w") as fh:
-        json.dump({"_doc": "every function body (not closures) of the workspace crates on the reference tree: normalised path -> crate, argument count. Used by sa/inline.py to recognise helpers that a later tree split off (inlined into their callers) and renamed functions. Regenerate with tools/gen_known_fns.py only when the reference tree changes.", "fns": fn_index(raw)}, fh, indent=0, sort_keys=True)
+        json.dump({"_doc": "every function body (not closures) of the workspace crates on the reference tree: normalised path -> crate, argument count. Used by sa/inline.py to recognise helpers that a later tree split off (inlined into their callers) and renamed functions. Regenerate with tools/gen_known_fns.py only when the reference tree changes.", "fns": index if index is not None else fn_index(raw)}, fh, indent=0, sort_keys=True)
